@@ -4,7 +4,8 @@ from ref import term
 from ref.view import S, TEXT, SIGMA, build2, ranges, check_render
 
 # structural alphabet + verbatim settings holding several groups (rendered verbatim; the terminal reads every code)
-SIGMA1 = SIGMA + (('[38;5;9;1', '38;5;9;1'), ('[1;31', '1;31'), ('[48;2;1;2;3;4', '48;2;1;2;3;4'))
+SIGMA1 = SIGMA + (('[38;5;9;1', '38;5;9;1'), ('[1;31', '1;31'), ('[48;2;1;2;3;4', '48;2;1;2;3;4'),
+                  (['red', 'blue', 'red'], None), (['bold', 'italic', 'underline'], None), (['overlined', 'framed', 'fg_default'], None))
 
 from ansi_string import AnsiString, AnsiStr
 
@@ -96,7 +97,7 @@ def h_sweep(f: int, y: int, shape: int, reps=REPS):
 
 
 BOUNDS = {
-    'quick': 'values from <=2 apply steps at n=2 over an 11-setting alphabet incl. 3 multi-group verbatim settings (all canonical ranges, topmost both), each also sliced / padded / '
+    'quick': 'values from <=2 apply steps at n=2 over a 14-setting alphabet incl. 3 multi-group verbatim settings and 3 three-setting lists (all canonical ranges, topmost both), each also sliced / padded / '
              'concatenated / re-parsed / as AnsiStr; all 8 optimize/reset_start/reset_end combinations; free SGR code 0..256 against 8 '
              'representative codes in 4 span shapes',
     'thorough': 'values from 2 apply steps at n=3; free code against %d representative codes (one set + the clear code of each of the 14 '
